@@ -178,11 +178,13 @@ class MinGenSet():
                 var_type="integer"
             )
 
+        # pi_vars[(i, j)] = x_vars[(i, j)] * genset_vars[i] contributes to numbers[j]; with multiplicities a number may
+        # exceed the total (e.g. the flow of a cycle edge exceeds the source flow), so the total does not bound it
         self.pi_vars = self.solver.add_variables(
             self.x_indexes, 
             name_prefix="pi", 
             lb=0, 
-            ub=self.total, 
+            ub=self.total if self.max_multiplicity == 1 else max([self.total] + list(self.numbers)), 
             var_type="integer" if self.weight_type == int else "continuous"
         )
 
